@@ -103,37 +103,12 @@ Proof.
 Qed.
 End TotalWithTypeInformation.
 
-(* ---------------------------------------------------------------- participant: total except for one family *)
-Lemma cdr_r_string_panic : forall be s p, cdr_r_string be s = Panic p ->
-  exists len s', r_u32 E_NED be s = Ok (len, s') /\ len = 0.
+(* ---------------------------------------------------------------- participant (total since fix c095065) *)
+Theorem participant_from_bytes_total : forall d p, participant_from_bytes d <> Panic p.
 Proof.
-  intros be s p H. unfold cdr_r_string, rbind in H.
-  destruct (r_u32 E_NED be s) as [[len s']|e|q] eqn:E; [|discriminate|exfalso; exact (total_u32 _ _ s q E)].
-  exists len, s'. split; [reflexivity|].
-  destruct (len =? 0) eqn:E0; [apply Z.eqb_eq; assumption|]. exfalso.
-  destruct (r_bytes E_NED (len - 1) s') as [[b s'']|e|q] eqn:E1; [|discriminate|exact (total_bytes _ _ s' q E1)].
-  destruct (r_u8 E_NED s'') as [[c s3]|e|q] eqn:E2; [|discriminate|exact (total_u8 _ s'' q E2)].
-  destruct (utf8_valid b); discriminate.
-Qed.
-
-Theorem participant_from_bytes_total : forall d,
-  domain_tag_len0 d = false -> forall p, participant_from_bytes d <> Panic p.
-Proof.
-  intros d Hk p C. unfold participant_from_bytes in C. apply tbl_from_bytes_panic in C.
-  unfold participant_rtable in C.
-  repeat match type of C with
-  | Exists _ (_ :: _) => apply Exists_cons in C; destruct C as [C|C];
-      [first [ solve [exfalso; revert C; apply total_run_reader; solve_reader_total] | idtac ]|]
-  | Exists _ [] => inversion C
-  end.
-  (* the PID_DOMAIN_TAG row *)
-  cbn [run_reader r_pid r_reader] in C. unfold k_optional in C. unfold domain_tag_len0 in Hk.
-  destruct (seek_to_pid d PID_DOMAIN_TAG) as [[v|]|e|q] eqn:Es; cbn [bind] in C; try discriminate;
-    [|exfalso; exact (total_seek_to_pid _ _ q Es)].
-  destruct (hdr_endianness (pl_hdr d)) as [be|e|q] eqn:Eh; cbn [bind] in C; try discriminate;
-    [|exfalso; exact (total_hdr_endianness _ q Eh)].
-  unfold run in C. destruct (cdr_r_string be (0, v)) as [[a s]|e|q] eqn:E; try discriminate.
-  apply cdr_r_string_panic in E. destruct E as [len [s' [E1 E2]]]. rewrite E1 in Hk. subst len. discriminate.
+  unfold participant_from_bytes. apply tbl_from_bytes_total. unfold participant_rtable.
+  repeat (constructor; [first [solve_reader_total | cbn [reader_total r_reader]; apply total_k_optional; apply total_cstring]|]).
+  constructor.
 Qed.
 
 (* ---------------------------------------------------------------- unknown parameters, per data type *)
@@ -141,26 +116,30 @@ Section UnknownWithTypeInformation.
 Variable TI : Type.
 Variable ti_dec : xdec TI.
 
-Theorem topic_unknown_pids_ignored : forall ps u tail,
-  ps <> [] -> Forall item_ok ps -> item_ok u -> ~ In (fst u) (map r_pid (topic_rtable TI ti_dec)) ->
-  hdr_endianness (pl_hdr (params_bytes ps ++ tail)) = Ok false ->
-  topic_from_bytes TI ti_dec (params_bytes (ps ++ [u]) ++ tail) = topic_from_bytes TI ti_dec (params_bytes ps ++ tail).
+Theorem topic_unknown_pids_ignored : forall be hdr ps u tail,
+  blen hdr = 4 -> hdr_endianness (pl_hdr hdr) = Ok be -> Forall item_ok ps -> item_ok u ->
+  ~ In (fst u) (map r_pid (topic_rtable TI ti_dec)) ->
+  topic_from_bytes TI ti_dec (hdr ++ params_bytes be (ps ++ [u]) ++ tail)
+  = topic_from_bytes TI ti_dec (hdr ++ params_bytes be ps ++ tail).
 Proof. intros. unfold topic_from_bytes. apply unknown_pids_ignored_tbl; assumption. Qed.
-Theorem dwriter_unknown_pids_ignored : forall ps u tail,
-  ps <> [] -> Forall item_ok ps -> item_ok u -> ~ In (fst u) (map r_pid (dwriter_rtable TI ti_dec)) ->
-  hdr_endianness (pl_hdr (params_bytes ps ++ tail)) = Ok false ->
-  dwriter_from_bytes TI ti_dec (params_bytes (ps ++ [u]) ++ tail) = dwriter_from_bytes TI ti_dec (params_bytes ps ++ tail).
+Theorem dwriter_unknown_pids_ignored : forall be hdr ps u tail,
+  blen hdr = 4 -> hdr_endianness (pl_hdr hdr) = Ok be -> Forall item_ok ps -> item_ok u ->
+  ~ In (fst u) (map r_pid (dwriter_rtable TI ti_dec)) ->
+  dwriter_from_bytes TI ti_dec (hdr ++ params_bytes be (ps ++ [u]) ++ tail)
+  = dwriter_from_bytes TI ti_dec (hdr ++ params_bytes be ps ++ tail).
 Proof. intros. unfold dwriter_from_bytes. apply unknown_pids_ignored_tbl; assumption. Qed.
-Theorem dreader_unknown_pids_ignored : forall ps u tail,
-  ps <> [] -> Forall item_ok ps -> item_ok u -> ~ In (fst u) (map r_pid (dreader_rtable TI ti_dec)) ->
-  hdr_endianness (pl_hdr (params_bytes ps ++ tail)) = Ok false ->
-  dreader_from_bytes TI ti_dec (params_bytes (ps ++ [u]) ++ tail) = dreader_from_bytes TI ti_dec (params_bytes ps ++ tail).
+Theorem dreader_unknown_pids_ignored : forall be hdr ps u tail,
+  blen hdr = 4 -> hdr_endianness (pl_hdr hdr) = Ok be -> Forall item_ok ps -> item_ok u ->
+  ~ In (fst u) (map r_pid (dreader_rtable TI ti_dec)) ->
+  dreader_from_bytes TI ti_dec (hdr ++ params_bytes be (ps ++ [u]) ++ tail)
+  = dreader_from_bytes TI ti_dec (hdr ++ params_bytes be ps ++ tail).
 Proof. intros. unfold dreader_from_bytes. apply unknown_pids_ignored_tbl; assumption. Qed.
 End UnknownWithTypeInformation.
-Theorem participant_unknown_pids_ignored : forall ps u tail,
-  ps <> [] -> Forall item_ok ps -> item_ok u -> ~ In (fst u) (map r_pid participant_rtable) ->
-  hdr_endianness (pl_hdr (params_bytes ps ++ tail)) = Ok false ->
-  participant_from_bytes (params_bytes (ps ++ [u]) ++ tail) = participant_from_bytes (params_bytes ps ++ tail).
+Theorem participant_unknown_pids_ignored : forall be hdr ps u tail,
+  blen hdr = 4 -> hdr_endianness (pl_hdr hdr) = Ok be -> Forall item_ok ps -> item_ok u ->
+  ~ In (fst u) (map r_pid participant_rtable) ->
+  participant_from_bytes (hdr ++ params_bytes be (ps ++ [u]) ++ tail)
+  = participant_from_bytes (hdr ++ params_bytes be ps ++ tail).
 Proof. intros. unfold participant_from_bytes. apply unknown_pids_ignored_tbl; assumption. Qed.
 
 (* every vendor-specific pid (>= 0x8000, i.e. negative as i16) is unknown to all four tables *)
@@ -232,12 +211,22 @@ Proof.
   eexists. split; [vm_compute; reflexivity|]. split; [reflexivity|]. intros C. discriminate.
 Qed.
 
-(* D14: a zero-length PID_DOMAIN_TAG string makes SpdpDiscoveredParticipantData::from_bytes panic *)
+(* regression inputs of the two repaired defects *)
+(* c095065: a zero-length PID_DOMAIN_TAG string is InvalidData (it used to panic) *)
 Definition witness_d14 : bytes :=
   [0; 3; 0; 0;  80; 0; 16; 0] ++ witness_key ++ [20; 64; 4; 0; 0; 0; 0; 0;  1; 0; 0; 0].
-Lemma participant_panic_witness :
-  domain_tag_len0 witness_d14 = true /\ participant_from_bytes witness_d14 = Panic PANIC_STRING_LEN0.
-Proof. split; vm_compute; reflexivity. Qed.
+Lemma zero_length_tag_is_an_error : participant_from_bytes witness_d14 = Err E_INVALID.
+Proof. vm_compute. reflexivity. Qed.
+(* 0c275fa: a big-endian participant announcement decodes (its header used to be read as
+   PID_PARTICIPANT_LEASE_DURATION with an empty value: NotEnoughData) *)
+Definition witness_be_participant : bytes :=
+  [0; 2; 0; 0] ++ params_bytes true
+    [(80, witness_key); (21, [2; 4; 0; 0]); (22, [1; 20; 0; 0]); (88, [48; 0; 240; 63]); (2, [0; 0; 0; 30; 0; 0; 0; 5])]
+  ++ [0; 1; 0; 0].
+Lemma be_participant_decodes :
+  exists r, participant_from_bytes witness_be_participant = Ok r
+            /\ p_key r = witness_key /\ p_available_builtin_endpoints r = 805367871 /\ p_lease_duration r = (30, 5).
+Proof. eexists. split; [vm_compute; reflexivity|]. repeat split. Qed.
 
 (* non-vacuity of the round-trip theorems: a concrete record with non-default values, vendor
    locators, partitions and user data meets the hypotheses *)
